@@ -125,9 +125,20 @@ OpClause(t, o) ==
 IsDrift(c) == c \in {"drift:SliceOffBoundary", "drift:CutOffBoundary", "drift:BlocksAfterBranchInDelaySlot",
                       "drift:LengthIsNotByteCount"}
 
+BlockRecOK(r) == "ok" \in DOMAIN r /\ (r.ok = 1 => {"a", "len", "lo", "hi", "ia", "il", "raw"} \subseteq DOMAIN r /\ Len(r.il) = Len(r.ia))
+WellFormedSweep(t) ==
+  /\ {"seq", "ib", "blocks", "gb", "ops", "exc", "start"} \subseteq DOMAIN t
+  /\ Len(t.ib) = Len(t.seq) /\ \A k \in 1..Len(t.seq) : Len(t.seq[k]) = 4
+  /\ \A i \in 1..Len(t.blocks) : BlockRecOK(t.blocks[i]) /\ t.blocks[i].ok = 1
+  /\ BlockRecOK(t.gb)
+  /\ \A i \in 1..Len(t.ops) : LET o == t.ops[i] IN
+        /\ {"op", "b", "res"} \subseteq DOMAIN o /\ o.b \in 1..Len(t.blocks) /\ BlockRecOK(o.res)
+        /\ (o.op = "slice" /\ {"sta", "sto"} \subseteq DOMAIN o) \/ (o.op = "cut" /\ {"at", "nl"} \subseteq DOMAIN o)
+
 SweepClause(t) ==
   LET n == Len(t.seq) IN
-  IF t.exc # "" THEN "Raised"
+  IF ~WellFormedSweep(t) THEN "MalformedEvent"
+  ELSE IF t.exc # "" THEN "Raised"
   ELSE IF n = 0 THEN (IF t.blocks = <<>> /\ t.gb.ok = 0 THEN "" ELSE "BlocksAreMaximalRuns")
   ELSE
     LET Sm == StreamOf(t.seq)
@@ -212,8 +223,22 @@ ProbeStep ==
 (* deviations of today's code that made a difference in this step            *)
 Fired(m, nd, e) == {F \in AsIs : ProjM(StepM(m, nd, e, AsIs \ {F})) # ProjM(StepM(m, nd, e, AsIs))}
 
+(* verdicts are total: an event the spec cannot interpret is a verdict, not a TLC error *)
+WellFormedEvent(e) ==
+  /\ {"op", "exc", "sig", "lay", "ed"} \subseteq DOMAIN e
+  /\ \/ e.op = "add" /\ "bd" \in DOMAIN e /\ Len(e.bd) >= 2 /\ \A k \in 1..(Len(e.bd) - 1) : e.bd[k] < e.bd[k + 1]
+     \/ e.op = "readd" /\ "n" \in DOMAIN e /\ e.n \in 1..Len(nodes)
+     \/ e.op = "link" /\ {"x", "y"} \subseteq DOMAIN e
+  /\ \A i \in 1..Len(e.lay) : Len(e.lay[i]) = 2
+  /\ \A i \in 1..Len(e.ed) : Len(e.ed[i]) = 4
+
+MalformedStep ==
+  /\ ~done /\ T.kind = "graph" /\ l <= Len(T.steps) /\ ~WellFormedEvent(T.steps[l])
+  /\ verdict' = Bad("MalformedEvent") /\ Halt
+  /\ UNCHANGED <<tid, mi, ma, nodes, nodesA, pLay, pEd, ins, gone, known, drift, done>>
+
 GraphStep ==
-  /\ ~done /\ T.kind = "graph" /\ l <= Len(T.steps)
+  /\ ~done /\ T.kind = "graph" /\ l <= Len(T.steps) /\ WellFormedEvent(T.steps[l])
   /\ LET e     == T.steps[l]
          Sm    == StreamOf(T.S)
          lay   == e.lay
@@ -264,6 +289,6 @@ Finish ==
   /\ PrintT(ToJson([t |-> T.t, verdict |-> verdict, known |-> known, drift |-> drift]))
   /\ UNCHANGED <<tid, l, mi, ma, nodes, nodesA, pLay, pEd, ins, gone, verdict, known, drift>>
 
-Next == SweepStep \/ GraphStep \/ ProbeStep \/ Finish
+Next == SweepStep \/ GraphStep \/ MalformedStep \/ ProbeStep \/ Finish
 Spec == Init /\ [][Next]_vars
 =============================================================================
